@@ -154,7 +154,8 @@ func (f *File) RowContent() []string {
 	if f.currentRow == nil {
 		return []string{}
 	}
-	return f.currentRow.cells
+	// Return a copy: the CSV reader reuses the slice for the following rows.
+	return append([]string(nil), f.currentRow.cells...)
 }
 
 func (f *File) RowNumber() int {
